@@ -39,6 +39,7 @@ RULE = ("random table Hamiltonians (1-4 variables, 1-5 bonds on 1-4 variables (3
         "{0,1/8,...,6} incl. all-zero bonds), beta in {1/8..4}, cutoff 1..10 (container sometimes shorter than the cutoff), "
         "random operator strings with diagonal and off-diagonal ops whose inputs follow the propagated state; "
         "in a fifth of the trait-level cases the container is LONGER than the sweep cutoff (pre-grown with set_cutoff after the install, or with operators in the tail as after a longer earlier sweep; tail-operator cases that run out of L-n are skipped); "
+        "a tenth of the strings are completely full (n == L from the first slot), and in a third of the prob cases every other empty slot of the sweep is filled (from slot 0 or from a random position, so the string becomes full during the sweep): the examined slot is then the last free slot (insertion with L-n = 1) and the removal of the installed operator is bisected at n == L (L-n+1 = 1), both variants; "
         "traj: one real sweep (Metropolis / heat-bath with the real or an inflated table) under a recorded RNG, replayed by the model; "
         "prob: threshold bisection of the bond/attempt/acceptance/removal words of a random empty slot k inside a sweep, "
         "compared with the model's rationals and (oracle, real code only) p_insert/p_remove against beta*w/(L-n) with the n current at slot k. "
